@@ -303,6 +303,28 @@ func (C19) Generate(c *Ctx, r *Rand, index int) *Scenario {
 			sc.Files = []File{{Name: "-", Docs: []string{g.Doc(id0).YAML()}, Mode: 0644},
 				{Name: "f2." + Pick(rs, []string{"json", "yaml", "properties", "xml", "csv"}), Docs: []string{GenJSONDoc(r.Fork("d1"), DocID(r, 1, 0), false)}, Mode: 0644}}
 		}
+		if rs.Chance(1, 5) {
+			// several dots: only the last extension counts, whatever the earlier components look like
+			inner := Pick(rs, []string{"p", "y", "j", "x", "c", "t", "l", "csv", "json", "xml", "properties", "yaml", "index", "v1.2"})
+			for i := range sc.Files {
+				if sc.Files[i].Name != "-" {
+					parts := strings.SplitN(sc.Files[i].Name, ".", 2)
+					if len(parts) == 2 {
+						sc.Files[i].Name = parts[0] + "." + inner + "." + parts[1]
+					}
+				}
+			}
+			sc.Meta["multi_dot"] = true
+		}
+		if rs.Chance(1, 5) {
+			// an explicit output format must hold whatever the first file is called
+			fi = InputFormats[0]
+			g := &DocGen{R: r.Fork("d0"), Plain: true}
+			sc.Files = []File{{Name: Pick(rs, []string{"deploy.yaml.tmpl", "f1.bak", "f1.txt", "notes", "f1.yml.orig", "f1.JSON5"}), Docs: []string{g.Doc(id0).YAML()}, Mode: 0644}}
+			o := Pick(rs, []string{"json", "props", "xml", "j", "p"})
+			argv = append(argv, Pick(rs, []string{"-o=" + o, "--output-format=" + o}))
+			sc.Meta["auto_out"] = o
+		}
 		sc.Meta["auto"] = fi.Name
 		expr := Pick(rs, []string{".", fi.IDPath})
 		format = fi.Name
@@ -925,7 +947,10 @@ func (C19) Judge(c *Ctx, sc *Scenario) []Violation {
 		ins := false
 		for _, a := range sc.Argv {
 			if !ins && a != "ea" {
-				argv = append(argv, "-p="+auto, "-o="+auto)
+				argv = append(argv, "-p="+auto)
+				if sc.MetaString("auto_out") == "" {
+					argv = append(argv, "-o="+auto)
+				} // else the scenario's own -o follows
 				ins = true
 			}
 			argv = append(argv, a)
